@@ -29,7 +29,7 @@ func VerifSocksConsts() map[string]int {
 		"CmdUDPAssociate": socksCmdUDPAssociate, "AddrIPv4": socksAddrTypeIPv4,
 		"AddrDomain": socksAddrTypeDomain, "AddrIPv6": socksAddrTypeIPv6,
 		"RepSuccess": socksRepSuccess, "RepServerFailure": socksRepServerFailure,
-		"RepCommandNotSupported": socksRepCommandNotSupported,
+		"RepCommandNotSupported":  socksRepCommandNotSupported,
 		"RepAddrTypeNotSupported": socksRepAddrTypeNotSupported,
 	}
 }
